@@ -6,6 +6,7 @@ Two loop skeletons are supported, selected by the shape of the dependency loop f
 Any other shape is outside the unit (UNDECIDED).  In both, the property proved is the same postcondition.
 """
 import copy
+import os
 import re
 
 from vlib.gen import Unit, Fn, Adt, Raw, load_source
@@ -29,6 +30,26 @@ HASH_RW = (re.compile(r"if &([\w\.]+) != expected_hash \{"), r"if string_ne(&\1,
 MAIN_RW = ("main.core_ir.toplevels.iter().any(|f| f.name == \"main\")", "core_file_has_main(&main.core_ir)")
 
 
+def map_type():
+    """the type of by_name, read from its initialiser on this run"""
+    src = load_source(S)
+    s, b, e = src.find_fn("link_cores")
+    mt = re.search(r"let\s+mut\s+by_name(?:\s*:\s*[^=]+)?\s*=\s*(HashMap|BTreeMap)::new\(\);", src.text[s:e])
+    if not mt:
+        raise AnchorLost("link_cores: by_name is neither a HashMap nor a BTreeMap created with ::new()")
+    return mt.group(1)
+
+
+# the two errors of the dependency check keep their provenance (which package, which dependency); every other message is dropped
+ERR_RW = [
+    (re.compile(r'compile_error\(\s*format!\(\s*"package \{\} depends on missing package \{\}",\s*(\w+),\s*(\w+)\s*,?\s*\)\s*\)', re.S), r"compile_error_dep(\1, \2)", "*"),
+    (re.compile(r'compile_error\(\s*format!\(\s*"package \{\} expects interface_hash[^"]*",\s*(\w+),\s*\w+,\s*(\w+),(?:[^()]|\([^()]*\))*?\)\s*\)', re.S), r"compile_error_dep(\1, \2)", "*"),
+    (re.compile(r"format!\((?:[^()]|\([^()]*\))*\)"), "rt_msg()", "*"),
+]
+DET_POST = ("\n            (r is Err && r->Err_0.is_dep()) ==> exists|m: Map<Seq<char>, CoreUnit>, i: int, j: int| "
+            "#[trigger] first_bad(m, cores@, r->Err_0.pkg(), r->Err_0.dep(), i, j),")
+
+
 def shape():
     src = load_source(S)
     s, b, e = src.find_fn("link_cores")
@@ -47,22 +68,39 @@ def link_fn():
     sh = shape()
     if sh == "A":
         return Fn(file=S, name="link_cores", ret="r", attrs="#[verifier::loop_isolation(false)]",
+                  rules=["attrs", "msg_to_string", ("consume", ["cores"]), "for_entries"],
                   cut_before=CUT, cut_tail="    proof { lemma_link_final(by_name@, cores0); }\n    link_rest(by_name, order)",
-                  obligation="link succeeds only if every recorded dependency hash equals the hash of the linked dependency's interface",
-                  rewrites=[MAIN_RW, HASH_RW],
-                  contract="ensures r is Ok ==> deps_consistent(cores@),",
-                  ghost=COMMON_GHOST,
+                  obligation="link succeeds only if every recorded dependency hash equals the hash of the linked dependency's interface; "
+                             "a dependency-check error names the FIRST failing (package, dependency) in sorted order (a function of the inputs)",
+                  rewrites=[MAIN_RW, HASH_RW] + ERR_RW,
+                  contract="ensures r is Ok ==> deps_consistent(cores@)," + DET_POST,
+                  ghost=COMMON_GHOST + [
+                      ("@loop:1:before", "", "proof { assert(indexed(by_name@, cores0, cores0.len() as int)); }"),
+                      ("?return Err(compile_error_dep(pkg, dep));", "line-before",
+                       "proof { assert(ent_keys(__es0@)[__ek0 - 1] == pkg@); assert(ent_keys(__es1@)[__ek1 - 1] == dep@); "
+                       "assert forall|j2: int| 0 <= j2 < __ek1 - 1 implies !dep_bad(by_name@, by_name@[pkg@], #[trigger] canonical(by_name@[pkg@].deps@.dom())[j2]) by { assert(ent_keys(__es1@)[j2] == __es1@[j2].0@); } "
+                       "assert forall|i2: int| 0 <= i2 < __ek0 - 1 implies unit_clean(by_name@, #[trigger] canonical(by_name@.dom())[i2]) by { assert(ent_keys(__es0@)[i2] == __es0@[i2].0@); } "
+                       "assert(first_bad(by_name@, cores0, pkg@, dep@, __ek0 - 1, __ek1 - 1)); }", 0),
+                      ("?return Err(compile_error_dep(pkg, dep));", "line-before",
+                       "proof { assert(ent_keys(__es0@)[__ek0 - 1] == pkg@); assert(ent_keys(__es1@)[__ek1 - 1] == dep@); "
+                       "assert forall|j2: int| 0 <= j2 < __ek1 - 1 implies !dep_bad(by_name@, by_name@[pkg@], #[trigger] canonical(by_name@[pkg@].deps@.dom())[j2]) by { assert(ent_keys(__es1@)[j2] == __es1@[j2].0@); } "
+                       "assert forall|i2: int| 0 <= i2 < __ek0 - 1 implies unit_clean(by_name@, #[trigger] canonical(by_name@.dom())[i2]) by { assert(ent_keys(__es0@)[i2] == __es0@[i2].0@); } "
+                       "assert(first_bad(by_name@, cores0, pkg@, dep@, __ek0 - 1, __ek1 - 1)); }", 1),
+                  ],
                   loops={
                       0: LOOP0,
                       1: """invariant __ek0 <= __es0@.len(),
                         forall|i: int, dep: Seq<char>| 0 <= i < __ek0 && (#[trigger] __es0@[i].1.deps@.contains_key(dep)) ==>
                             by_name@.contains_key(dep) && hash_matches(by_name@[dep], __es0@[i].1.deps@[dep]),
+                        forall|i: int| 0 <= i < __ek0 ==> unit_clean(by_name@, (#[trigger] __es0@[i]).0@),
                     decreases __es0@.len() - __ek0,""",
                       2: """invariant __ek1 <= __es1@.len(), 0 < __ek0 <= __es0@.len(),
                         forall|i: int, dep: Seq<char>| 0 <= i < __ek0 - 1 && (#[trigger] __es0@[i].1.deps@.contains_key(dep)) ==>
                             by_name@.contains_key(dep) && hash_matches(by_name@[dep], __es0@[i].1.deps@[dep]),
+                        forall|i: int| 0 <= i < __ek0 - 1 ==> unit_clean(by_name@, (#[trigger] __es0@[i]).0@),
                         forall|i: int| 0 <= i < __ek1 ==> by_name@.contains_key(#[trigger] __es1@[i].0@)
                             && hash_matches(by_name@[__es1@[i].0@], __es1@[i].1@),
+                        forall|i: int| 0 <= i < __ek1 ==> !dep_bad(by_name@, *unit, (#[trigger] __es1@[i]).0@),
                     decreases __es1@.len() - __ek1,""",
                   })
     # shape B: the outer loop walks `order`
@@ -88,14 +126,19 @@ def link_fn():
 
 UNIT = Unit(
     name="U-LINK",
-    properties=["C15"],
+    properties=["C15", "C13"],
+    # the determinism clause (first_bad / canonical order) is C13's; everything else is C15's
+    clause_scope={"C13": {"only": ["first_bad", "canonical("]}, "C15": {"except": ["first_bad", "canonical("]}},
     rules=["attrs", "fmtmsg", "msg_to_string", ("consume", ["cores"]), "for_entries"],
     describe="separate::link_cores, consistency phase (everything before code generation): Ok is returned only if every dependency "
-             "recorded in every unit is present among the linked units with exactly the recorded interface hash; duplicates are rejected",
+             "recorded in every unit is present among the linked units with exactly the recorded interface hash; duplicates are rejected; "
+             "(C13) a dependency-check error names the FIRST failing (package, dependency) pair in sorted package order, then sorted "
+             "dependency order — a function of the inputs, not of a hash seed",
     trusted=["FRAGMENT: the part of link_cores after the consistency checks (from `let mut genv = GlobalTypeEnv::new();`: merging exports, "
              "mono, lift, anf, go) is replaced by the opaque continuation link_rest(by_name, order) and is not verified",
              "HashMap<String,_>/BTreeMap iteration is modelled as an arbitrary-order list of the entries (shim `entries`)",
              "separate::topo_sort is not verified; its shim assumes that on success the order lists every linked package (used only by loop shape B)"],
-    items=art_types + [Raw(path="contracts/link.shim.rs"), compute_hash],
+    items=art_types + [Raw(text=lambda: open(os.path.join(os.path.dirname(os.path.dirname(os.path.abspath(__file__))), "contracts", "link.shim.rs")).read()
+                            .replace("BYNAME_MAP", map_type())), compute_hash],
 )
 UNIT.items = UNIT.items + [link_fn()]
